@@ -341,9 +341,24 @@ type Hist struct {
 func (h Hist) String() string { return fmt.Sprintf("%s [%s]", h.Cfg, strings.Join(h.Ops, " ")) }
 
 type runner struct {
-	base  string
-	cache map[string]recovered
-	p     *vr.Partial
+	base      string
+	cache     map[string]recovered
+	p         *vr.Partial
+	curImg    *crashfs.Image
+	curRec    *recovered
+	curCfg    Cfg
+	confirmed map[string]bool
+}
+
+// confirm re-recovers a failing image from a fresh copy and demands the identical result.
+func (rn *runner) confirm() {
+	first := *rn.curRec
+	for i := 0; i < 2; i++ {
+		again := recoverImage(filepath.Join(rn.base, "case"), rn.curImg, rn.curCfg)
+		if again.Err != first.Err || again.Term != first.Term || again.Vote != first.Vote || again.Last != first.Last || fmt.Sprint(again.Log) != fmt.Sprint(first.Log) {
+			vr.Fatalf("non-deterministic recovery of image %s", rn.curImg.Describe())
+		}
+	}
 }
 
 func (rn *runner) recoverCached(im *crashfs.Image, cfg Cfg) recovered {
@@ -362,6 +377,13 @@ func (rn *runner) recoverCached(im *crashfs.Image, cfg Cfg) recovered {
 }
 
 func (rn *runner) viol(h Hist, sig, desc string) {
+	if rn.curImg != nil && !rn.confirmed[sig] {
+		if rn.confirmed == nil {
+			rn.confirmed = map[string]bool{}
+		}
+		rn.confirmed[sig] = true
+		rn.confirm()
+	}
 	blob, _ := json.Marshal(h)
 	rn.p.Viol(sig, "history "+h.String()+": "+desc, string(blob))
 }
@@ -479,6 +501,7 @@ func (rn *runner) run(h Hist) {
 	_ = m.Close()
 	if im, err := crashfs.Capture(dir, nil); err == nil {
 		r := rn.recoverCached(im, cfg)
+		rn.curImg, rn.curRec, rn.curCfg = im, &r, cfg
 		switch {
 		case r.Err != "":
 			rn.viol(h, fmt.Sprintf("clean-reopen cfg=%s got=refused:%s", cfgClass(cfg), r.Err), r.Det)
@@ -515,6 +538,7 @@ func (rn *runner) run(h Hist) {
 		p.Mark("point_classes", pt.Class())
 		unflushed := !cfg.SyncOnWrite && imageLacks(pt.Image, acc)
 		r := rn.recoverCached(pt.Image, cfg)
+		rn.curImg, rn.curRec, rn.curCfg = pt.Image, &r, cfg
 		ctx := fmt.Sprintf("cfg=%s at=%s unflushed=%v", cfgClass(cfg), at, unflushed)
 		if r.Err != "" {
 			rn.viol(h, fmt.Sprintf("%s got=reopen-refused:%s", ctx, r.Err), fmt.Sprintf("point %s image{%s}: %s", pt.String(), pt.Image.Describe(), r.Det))
